@@ -2,6 +2,7 @@ package vrt
 
 import (
 	"context"
+	"reflect"
 	"sync/atomic"
 	"time"
 )
@@ -105,6 +106,7 @@ func After(d time.Duration) <-chan time.Time {
 		return time.After(d)
 	}
 	ch := make(chan time.Time, 1)
+	RegisterChan(ch)
 	at := time.Now().Add(d)
 	e.addTimer(d, func() { ch <- at })
 	return ch
@@ -141,6 +143,7 @@ func WithTimeout(parent context.Context, d time.Duration) (context.Context, cont
 		return context.WithCancel(parent)
 	}
 	inner, cancel := context.WithCancel(parent)
+	registerDone(parent, inner)
 	c := &timerCtx{Context: inner, deadline: time.Now().Add(d)}
 	t := e.addTimer(d, func() {
 		c.fired.Store(true)
@@ -149,6 +152,27 @@ func WithTimeout(parent context.Context, d time.Duration) (context.Context, cont
 	return c, func() {
 		t.done = true
 		cancel()
+	}
+}
+
+// WithCancel is context.WithCancel; under the scheduler the new context's Done channel
+// is registered as controlled when nothing outside the task world can cancel it (the
+// parent can never be cancelled, or its Done channel is itself controlled).
+//
+//go:norace
+func WithCancel(parent context.Context) (context.Context, context.CancelFunc) {
+	ctx, cancel := context.WithCancel(parent)
+	if e := cur; e != nil && !e.aborted {
+		registerDone(parent, ctx)
+	}
+	return ctx, cancel
+}
+
+//go:norace
+func registerDone(parent, child context.Context) {
+	pd := parent.Done()
+	if pd == nil || isOwnChan(reflect.ValueOf(pd).UnsafePointer()) {
+		RegisterChan(child.Done())
 	}
 }
 
@@ -198,6 +222,7 @@ func NewTimer(d time.Duration) *Timer {
 		return &Timer{C: rt.C, real: rt}
 	}
 	ch := make(chan time.Time, 1)
+	RegisterChan(ch)
 	t := &Timer{C: ch, ch: ch}
 	t.arm(e, d)
 	return t
